@@ -265,6 +265,37 @@ func WM[T any](p *T, loc, site string) {
 	}
 }
 
+// mapID returns the identity of a map value (the pointer to its header).
+func mapID[M any](m M) unsafe.Pointer {
+	if unsafe.Sizeof(m) != unsafe.Sizeof(uintptr(0)) {
+		return nil
+	}
+	return *(*unsafe.Pointer)(unsafe.Pointer(&m))
+}
+
+// MC records a read of the contents of map m and returns m. The location is
+// the map itself, so it is the same whichever copy of the header is used.
+func MC[M any](m M, loc, site string) M {
+	if cur != nil {
+		access(mapID(m), 1, loc, site, false, true)
+	}
+	return m
+}
+
+// MCs is the statement form of MC (before a range over m).
+func MCs[M any](m M, loc, site string) {
+	if cur != nil {
+		access(mapID(m), 1, loc, site, false, true)
+	}
+}
+
+// MW records a store into (or a delete from) map m; placed after the statement.
+func MW[M any](m M, loc, site string) {
+	if cur != nil {
+		access(mapID(m), 1, loc, site, true, false)
+	}
+}
+
 func siteFunc(site string) string {
 	for i := len(site) - 1; i >= 0; i-- {
 		if site[i] == '@' {
